@@ -1,7 +1,7 @@
 (* C18 — Staging and deployment never write outside their target directory.  Property theorems only. *)
 From Coq Require Import String List Bool.
 Import ListNotations.
-Require Import V.Path.Model V.Path.Proofs V.Path.Archive V.Path.Deploy.
+Require Import V.Path.Model V.Path.Proofs V.Path.Archive V.Path.Deploy V.Path.PreLinks.
 Open Scope string_scope.
 
 (* For the SPECIFIED check (every member, and every link target, stays in the destination after
@@ -34,6 +34,25 @@ Theorem C18_archive_no_redirect : forall (d : list string) (ms : list member),
   gooddir d = true -> tar_check d ms = true -> extract d ms = extract_lexical d ms.
 Proof. exact archive_no_redirect. Qed.
 Print Assumptions C18_archive_no_redirect.
+
+(* Working directories that ALREADY contain symbolic links (e.g. link references staged earlier), [pre] being
+   any set of links of the file system: for every archive the repaired check (which refuses a member whose
+   path is, or passes through, an existing link below the destination) accepts, the extraction — following the
+   pre-existing links and the links of the archive — creates exactly the lexical paths ... *)
+Theorem C18_prelinks_no_redirect : forall (pre : links) (d : list string) (ms : list member),
+  gooddir d = true -> real_dir pre d = true -> tar_check_pre pre d ms = true ->
+  extract_pre pre d ms = extract_lexical d ms.
+Proof. exact prelinks_no_redirect. Qed.
+Print Assumptions C18_prelinks_no_redirect.
+
+(* ... hence every path created, after resolving the pre-existing links, lies inside the real destination
+   (d real: no link is d or an ancestor of d, which is what os.path.realpath(destination) returns; the
+   hypothesis is necessary: C18_real_dir_needed_refuted). *)
+Theorem C18_prelinks_confined : forall (pre : links) (d : list string) (ms : list member),
+  gooddir d = true -> real_dir pre d = true ->
+  forall p, In p (stage_extract_pre pre d ms) -> within d p.
+Proof. exact prelinks_confined. Qed.
+Print Assumptions C18_prelinks_confined.
 
 (* copy / link staging: at most one entry, named by the last segment of the source (which contains
    no separator and is not "", "." or ".."), directly under the working directory. *)
@@ -93,6 +112,12 @@ Example C18_nonvacuous :
   validate [("bin", "scripts"); ("data/sub", "/p/x:link"); ("./conf", "c:copy")] = true /\
   validate [("../x", "src")] = false /\ validate [("a", "/p/src:link"); ("a/b", "s:copy")] = false /\
   extract d ok = extract_lexical d ok /\
+  (let pre := [(d ++ ["prod"], ["out"]); (["t"; "work2"; "l"], d); (d ++ ["a"; "in"], d ++ ["z"])]%list in
+   real_dir pre d = true /\ tar_check_pre pre d [("a/b.txt", KFile); ("s", KSym "prod")] = true /\
+   stage_extract_pre pre d [("a/b.txt", KFile); ("s", KSym "prod")] = [d ++ ["a"; "b.txt"]; d ++ ["s"]]%list /\
+   tar_check_pre pre d [("prod/new.txt", KFile)] = false /\ tar_check_pre pre d [("prod", KFile)] = false /\
+   tar_check_pre pre d [("a/in/x", KFile)] = false /\ tar_check_pre pre d [("h", KHard "prod/secret.txt")] = false /\
+   real_dir [(["t"], ["out"])] d = false) /\
   deploy_ok false [("bin", "scripts"); ("data/sub", "/p/x:link"); ("./conf", "c:copy")] = true /\
   deploy_all false ["loc"; "i"] [("bin", "scripts"); ("data", "/p/x:link")] =
     [["loc"; "i"; "bin"]; ["loc"; "i"; "data"]; ["loc"; "i"; "conf"]; ["loc"; "i"; "conf"; "flowir_package.yaml"]] /\
